@@ -888,6 +888,149 @@ example : run { benign with trail := "]" } = errObs := by decide
 example : run { benign with lead := "\uFEFF" } = errObs := by decide
 example : Holds { benign with trail := "]" } sigObs = false := by decide
 
+/-! ### the duplicate-name scanner (`findDuplicateKey`) as a token state machine -/
+
+/-- the delimiter cases of the source do what the transcription assumes -/
+theorem scanner_table_fact : tableOf Facts.c18DupScannerDelims = canonTable := by decide
+
+/-- a member value is expected (or we are outside every object) -/
+def valPos : List Frame → Prop
+  | [] => True
+  | f :: _ => f.keys = none ∨ f.expectKey = false
+
+/-- the stack once a complete value has gone by -/
+def afterValue (st : List Frame) : List Frame := applyAct st .rearm
+
+def clash (ks : List String) : List (String × JVal) → Bool
+  | [] => false
+  | kv :: r => ks.contains kv.1 || clash (kv.1 :: ks) r
+
+def pushKeys (ks : List String) : List (String × JVal) → List String
+  | [] => ks
+  | kv :: r => pushKeys (kv.1 :: ks) r
+
+theorem any_or {α : Type} (l : List α) (p q : α → Bool) : l.any (fun x => p x || q x) = (l.any p || l.any q) := by
+  induction l with
+  | nil => rfl
+  | cons a l ih => simp only [List.any_cons, ih]; cases p a <;> cases q a <;> cases l.any p <;> cases l.any q <;> rfl
+
+theorem clash_eq (kvs : List (String × JVal)) : ∀ ks,
+    clash ks kvs = ((kvs.map (·.1)).any ks.contains || !nodupB (kvs.map (·.1))) := by
+  induction kvs with
+  | nil => intro ks; rfl
+  | cons kv r ih =>
+    intro ks
+    simp only [clash, ih, List.map_cons, List.any_cons, nodupB, List.contains_cons, any_or, Bool.not_and, Bool.not_not]
+    have : (List.map (fun x => x.fst) r).any (fun x => x == kv.fst) = (List.map (fun x => x.fst) r).contains kv.fst := by
+      induction (List.map (fun x => x.fst) r) with
+      | nil => rfl
+      | cons a l ih2 =>
+        simp only [List.any_cons, List.contains_cons, ih2]
+        congr 1
+        exact Bool.eq_iff_iff.2 (by simp only [beq_iff_eq]; exact ⟨Eq.symm, Eq.symm⟩)
+    have hfun : (kv.fst :: ks).contains = fun x => (x == kv.fst || ks.contains x) :=
+      funext (fun x => List.contains_cons)
+    rw [hfun, any_or, this]
+    cases ks.contains kv.fst <;> cases (List.map (fun x => x.fst) r).contains kv.fst <;>
+      cases (List.map (fun x => x.fst) r).any ks.contains <;> cases nodupB (List.map (fun x => x.fst) r) <;> rfl
+
+theorem any_nil_contains (l : List String) : l.any ([] : List String).contains = false := by
+  induction l with
+  | nil => rfl
+  | cons a l ih => simp [ih]
+
+theorem clash_nil (kvs : List (String × JVal)) : clash [] kvs = !nodupB (kvs.map (·.1)) := by
+  rw [clash_eq, any_nil_contains, Bool.false_or]
+
+theorem scalar_step (st : List Frame) (t : Tok) (ht : t = .other ∨ ∃ s, t = .str s) (hv : valPos st) :
+    tokStep canonTable st t = some (afterValue st) := by
+  cases st with
+  | nil => rcases ht with rfl | ⟨s, rfl⟩ <;> rfl
+  | cons f r =>
+    cases hk : f.keys with
+    | none =>
+      rcases ht with rfl | ⟨s, rfl⟩ <;> simp [tokStep, hk, afterValue, applyAct]
+    | some ks =>
+      have he : f.expectKey = false := by
+        rcases hv with h | h
+        · rw [hk] at h; cases h
+        · exact h
+      obtain ⟨k, e⟩ := f
+      simp only at hk he
+      subst hk; subst he
+      rcases ht with rfl | ⟨s, rfl⟩ <;> simp [tokStep, afterValue, applyAct]
+
+mutual
+theorem scan_value : ∀ (v : JVal) (st : List Frame) (rest : List Tok), valPos st →
+    scan canonTable st (v.tokens ++ rest) = (v.dupDeep || scan canonTable (afterValue st) rest)
+  | .null, st, rest, hv => by
+    simp only [JVal.tokens, List.cons_append, List.nil_append, scan, scalar_step st .other (Or.inl rfl) hv, JVal.dupDeep, Bool.false_or]
+  | .bool _, st, rest, hv => by
+    simp only [JVal.tokens, List.cons_append, List.nil_append, scan, scalar_step st .other (Or.inl rfl) hv, JVal.dupDeep, Bool.false_or]
+  | .num _, st, rest, hv => by
+    simp only [JVal.tokens, List.cons_append, List.nil_append, scan, scalar_step st .other (Or.inl rfl) hv, JVal.dupDeep, Bool.false_or]
+  | .str s, st, rest, hv => by
+    simp only [JVal.tokens, List.cons_append, List.nil_append, scan, scalar_step st (.str s) (Or.inr ⟨s, rfl⟩) hv, JVal.dupDeep, Bool.false_or]
+  | .arr xs, st, rest, hv => by
+    have h := scan_list xs st (.rbrack :: rest)
+    simp only [JVal.tokens, List.cons_append, List.append_assoc, List.nil_append, scan, tokStep, canonTable, List.foldl, applyAct,
+      JVal.dupDeep] at h ⊢
+    rw [h]
+    simp [scan, tokStep, canonTable, applyAct, afterValue]
+  | .obj kvs, st, rest, hv => by
+    have h := scan_members kvs [] st (.rbrace :: rest)
+    simp only [JVal.tokens, List.cons_append, List.append_assoc, List.nil_append, scan, tokStep, canonTable, List.foldl, applyAct,
+      JVal.dupDeep] at h ⊢
+    rw [h, clash_nil]
+    simp [scan, tokStep, canonTable, applyAct, afterValue]
+theorem scan_list : ∀ (xs : List JVal) (st : List Frame) (rest : List Tok),
+    scan canonTable (⟨none, false⟩ :: st) (tokensList xs ++ rest) =
+      (dupInList xs || scan canonTable (⟨none, false⟩ :: st) rest)
+  | [], st, rest => by simp [tokensList, dupInList]
+  | x :: r, st, rest => by
+    have h1 := scan_value x (⟨none, false⟩ :: st) (tokensList r ++ rest) (Or.inl rfl)
+    have h2 := scan_list r st rest
+    simp only [tokensList, List.append_assoc, dupInList]
+    rw [h1]
+    simp only [afterValue, applyAct, Option.isSome_none, Bool.false_eq_true, if_false]
+    rw [h2, Bool.or_assoc]
+theorem scan_members : ∀ (kvs : List (String × JVal)) (ks : List String) (st : List Frame) (rest : List Tok),
+    scan canonTable (⟨some ks, true⟩ :: st) (tokensMembers kvs ++ rest) =
+      (clash ks kvs || dupInMembers kvs || scan canonTable (⟨some (pushKeys ks kvs), true⟩ :: st) rest)
+  | [], ks, st, rest => by simp [tokensMembers, clash, dupInMembers, pushKeys]
+  | kv :: r, ks, st, rest => by
+    have h1 := scan_value kv.2 (⟨some (kv.1 :: ks), false⟩ :: st) (tokensMembers r ++ rest) (Or.inr rfl)
+    have h2 := scan_members r (kv.1 :: ks) st rest
+    simp only [tokensMembers, List.cons_append, List.append_assoc, clash, dupInMembers, pushKeys, scan, tokStep]
+    cases hc : ks.contains kv.1 with
+    | true => simp
+    | false =>
+      simp only [Bool.false_eq_true, if_false, Bool.false_or, if_true]
+      rw [h1]
+      simp only [afterValue, applyAct, Option.isSome_some, if_true]
+      rw [h2]
+      cases kv.2.dupDeep <;> cases clash (kv.1 :: ks) r <;> cases dupInMembers r <;> simp
+end
+
+/-- **the scanner is right**: `findDuplicateKey`'s state machine (with the delimiter table regenerated
+from the source) reports a duplicate exactly for the documents in which some object, at any depth,
+repeats a member name - for ALL documents, whatever arrays, objects or strings precede or follow -/
+theorem scanner_computes_dupDeep (p : JVal) : scanDup p = p.dupDeep := by
+  unfold scanDup
+  rw [scanner_table_fact]
+  have := scan_value p [] [] trivial
+  simpa [scan, afterValue, applyAct] using this
+
+/-- seed C18-10 in the model: a `]` that does not re-arm the enclosing object puts the scanner out of
+step, and a name repeated after an array-valued member slips through -/
+def brokenTable : DelimTable := { canonTable with rbrack := [.pop] }
+example : scan brokenTable []
+    (JVal.obj [("urls", .arr []), ("digest", .str "sha256:bad"), ("digest", .str "sha256:00")]).tokens = false := by decide
+example : scanDup
+    (JVal.obj [("urls", .arr []), ("digest", .str "sha256:bad"), ("digest", .str "sha256:00")]) = true := by decide
+example : scanDup (JVal.obj [("a", .arr [.str "b", .str "b"]), ("b", .str "a"), ("c", .obj [("a", .null)])]) = false := by
+  decide
+
 /-! ### tie to the translated source (docs/TIE_BRIEF.md)
 
 `Generated/SrcC18*.lean` are produced from signer/plugin.go, internal/envelope/envelope.go and
